@@ -90,7 +90,7 @@ def run(ctx):
             cases.append(line)
             info[cid] = (variant[0], 'special %s' % (sc,))
             cid += 1
-    res = ctx.component('K-SELECT', cases)
+    res = ctx.component('K-SELECT', cases, keys={'status', 'rep'})
     # natural runs, several realizations, and prefix pairs r' < r
     nat = []
     pairs = []
@@ -105,7 +105,7 @@ def run(ctx):
         line2 = ' '.join(t2)
         nat += [line, line2]
         pairs.append((200000 + 2 * k, 200000 + 2 * k + 1, rr, rp, meta['directed']))
-    res2 = ctx.component('K-E2E', nat)
+    res2 = ctx.component('K-E2E(natural runs, implementation only)', nat, model=False)
     n_eval = 0
     keys = set()
     if res:
